@@ -27,6 +27,8 @@ DEFAULT_W = dict(
     defer=0.2, recover=0.6, dry=0.1,
     max_ops=28, max_scopes=5,
     visualize=0.03,
+    reprovide=0.15,      # provide a key that some scope already provides, in another scope
+    reinvoke=0.35,       # invoke an earlier invoker again (same or other scope)
 )
 
 
@@ -351,6 +353,14 @@ class Gen:
             fid = self.malformed_fn()
             opts = {"name": "", "group": "", "as": [], "opts": []}
             outs = self.fns[fid - 1]["out"]
+        elif self.provided and self.p("reprovide"):
+            # the same key again, somewhere else in the tree (nearest-wins, stale caches, duplicates)
+            (_, t, nm) = r.choice(self.provided)
+            outs = [u(t)]
+            opts = {"name": nm, "group": "", "as": [], "opts": (["name"] if nm else [])}
+            lvl = PT.index(t) if t in PT else None
+            ins = self.gen_params(lvl, r.choice([0, 0, 1]))
+            fid = self.new_fn(ins, outs)
         else:
             level = r.randrange(0, len(PT))
             outs, opts = self.gen_results(level)
@@ -424,7 +434,7 @@ class Gen:
     def op_invoke(self):
         r = self.r
         scope = r.randrange(0, self.nscopes)
-        if self.invokers and r.random() < 0.35:
+        if self.invokers and self.p("reinvoke"):
             fid = r.choice(self.invokers)
         elif self.p("malformed") and r.random() < 0.4:
             fid = self.malformed_fn()
